@@ -6,35 +6,43 @@
    connector, queue membership, ear order):
      - the ported EarClip keeps  boundary(emitted) + edges(live lists) = input contours,
        uses only input indices and clips every record at most once
-       (earclip_contract_partial, earclip_count_partial);
-     - TriangulateConvex satisfies the same identities (convex_strip_chain, n <= 200);
+       (earclip_chain, earclip_count_partial);
+     - TriangulateConvex satisfies the same identities (convex_strip_chain, all n);
      - the area identity follows from the chain identity (area_sum);
      - the exact checker run on the implementation's outputs is sound (tri_check_soundness).
    What is NOT proved:
      - each triangle CCW within epsilon (floating ear costs): decided on outputs by tri_check;
-     - earclip_contract_partial keeps two executable hypotheses: nbad = 0 (JoinPolygons only
-       joins two different live rings, no ring of <= 2 records is clipped) and rings_closed
-       (DEBUG_ASSERT(v->right == v->left)); both are evaluated on every replayed run of the
-       implementation, not proved for every oracle;
-     - fuel sufficiency of Loop / ClipIfDegenerate (results are stated for runs that return). *)
+     - earclip_count_partial still takes the number of remaining rings as a hypothesis;
+     (fuel sufficiency is proved: earclip_terminates) *)
 From Coq Require Import ZArith List Bool.
-From MV Require Import Base.Chain Tri.EarClipDefs Tri.EarClipModel Tri.EarClipInit Tri.ConvexModel
+From MV Require Import Base.Chain Tri.EarClipDefs Tri.EarClipModel Tri.EarClipInit Tri.EarClipRings Tri.EarClipTerm Tri.HalfedgePairDefs Tri.HalfedgePairModel Tri.ConvexModel
   Tri.TriCheckDefs Tri.TriCheckModel.
 Import ListNotations.
 
-(* earclip_chain / earclip_count / indices.  For every oracle and every run that returns:
-   if the ghost counter nbad is 0 (JoinPolygons was only called on a live start and a live
-   connector other than start->right; TriangulatePoly never clipped a ring of <= 2 records)
-   the chain invariant, index validity and the clip counts hold; if moreover every remaining
-   ring is closed (rings_closed = the code's DEBUG_ASSERT(v->right == v->left)) the emitted
-   triangles satisfy the chain identity: every input edge once in its direction, every other
-   edge cancelled by its reverse.
-   PARTIAL: nbad = 0 and rings_closed are executable and are evaluated on every replayed run
-   of the implementation, but not proved to hold for every oracle (that needs the ghost ring
-   decomposition: holes and outers lie in different rings, Loop counts exactly its ring);
-   fuel sufficiency of Loop / ClipIfDegenerate is not proved either (statement is for runs
-   that return). *)
-Theorem earclip_contract_partial :
+(* earclip_chain / indices / clip counts, FULL: for every oracle and every run that returns,
+   the emitted triangles satisfy the chain identity (every input edge once in its direction,
+   every other edge cancelled by its reverse), use only input indices, #triangles + #filtered =
+   #ClipEar and #ClipEar + #live = V + 2*joins.  The two ghost conditions of the earlier
+   certificate form are now conclusions: nbad = 0 (JoinPolygons is only ever applied to a live
+   start and a live connector of a different ring; TriangulatePoly never clips a ring of <= 2
+   records) and rings_closed (every remaining ring has <= 2 records, the code's
+   DEBUG_ASSERT(v->right == v->left)).  Proof: ghost ring decomposition (EarClipRings.v): a label
+   per record preserved along ->left/->right, one circular list per label containing exactly the
+   live records of that label; Loop visits exactly the ring of its start; holes, outers and
+   simples lie in pairwise different rings until JoinPolygons merges two of them. *)
+Theorem earclip_chain :
+  forall (orc : Oracle) (fuel : nat) (polys : list (list Z)) (st : St),
+  triangulate orc fuel polys = Some st ->
+  ceq (boundaries (tris st)) (contours polys) /\
+  TrisIn (concat polys) st /\
+  length (tris st) + nfilt st = nclip st /\
+  nclip st + nlive st = numVert polys + 2 * njoin st /\
+  nbad st = 0 /\ rings_closed st = true.
+Proof. exact earclip_contract_full. Qed.
+Print Assumptions earclip_chain.
+
+(* the invariant form (also for intermediate use): chain of emitted triangles + live edges *)
+Theorem earclip_chain_invariant :
   forall (orc : Oracle) (fuel : nat) (polys : list (list Z)) (st : St),
   triangulate orc fuel polys = Some st -> nbad st = 0 ->
   (forall a b, coef (boundaries (tris st) ++ live_edges st) a b = coef (contours polys) a b) /\
@@ -43,7 +51,7 @@ Theorem earclip_contract_partial :
   nclip st + nlive st = numVert polys + 2 * njoin st /\
   (rings_closed st = true -> ceq (boundaries (tris st)) (contours polys)).
 Proof. exact earclip_contract_init. Qed.
-Print Assumptions earclip_contract_partial.
+Print Assumptions earclip_chain_invariant.
 
 (* the hypotheses are satisfiable: a pentagon with a triangular hole, 8 = V-2+2h-2(o-1) triangles *)
 Example earclip_contract_example :
@@ -65,13 +73,16 @@ Print Assumptions initialize_establishes_invariants.
 
 (* V-2+2h-2(o-1) when every hole was joined (h joins: two extra records each), the o
    remaining rings end with 2 records each and no topological degenerate was filtered.
-   PARTIAL in the same sense as earclip_contract_partial (hypothesis nbad = 0). *)
+   PARTIAL: the number of remaining rings (nlive = 2*o) is still a hypothesis. *)
 Theorem earclip_count_partial :
   forall (orc : Oracle) (fuel : nat) (polys : list (list Z)) (st : St) (h o : nat),
-  triangulate orc fuel polys = Some st -> nbad st = 0 ->
+  triangulate orc fuel polys = Some st ->
   njoin st = h -> nlive st = 2 * o -> nfilt st = 0 ->
   (Z.of_nat (length (tris st)) = Z.of_nat (numVert polys) - 2 + 2 * Z.of_nat h - 2 * (Z.of_nat o - 1))%Z.
-Proof. exact earclip_count_init. Qed.
+Proof.
+  exact (fun orc fuel polys st h o H =>
+           earclip_count_init orc fuel polys st h o H (proj1 (triangulate_ghost orc fuel polys st H))).
+Qed.
 Print Assumptions earclip_count_partial.
 
 (* every list operation is a Step for every oracle: the ghost counter never decreases and,
@@ -86,25 +97,51 @@ Theorem join_polygons_preserves :
 Proof. exact joinPolygons_step. Qed.
 Print Assumptions join_polygons_preserves.
 
-(* earclip_terminates, partial: TriangulatePoly's counted loop performs exactly k ClipEar
-   calls whenever it returns (it has no fuel; it can only fail on an out-of-range iterator).
-   Missing: fuel sufficiency of Loop and of the ClipIfDegenerate recursion. *)
-Theorem earclip_terminates_partial :
+(* earclip_terminates, FULL: for every oracle and every polygon set without empty contours
+   (an empty contour dereferences poly.begin()) the ported Triangulate returns a state once
+   fuel >= 2*(V + 2*#contours) + 4: no iterator leaves polygon_, no push_back exceeds the
+   reserved capacity (V + 2*#contours), Loop terminates from live and from clipped starts
+   (clip times increase along ->right of clipped records), the ClipIfDegenerate recursion is
+   bounded by the ring size. *)
+Theorem earclip_terminates :
+  forall (orc : Oracle) (fuel : nat) (polys : list (list Z)),
+  (forall p, In p polys -> p <> []) ->
+  2 * (numVert polys + 2 * length polys) + 4 <= fuel ->
+  exists st, triangulate orc fuel polys = Some st.
+Proof. exact triangulate_some. Qed.
+Print Assumptions earclip_terminates.
+
+(* total correctness in one statement *)
+Theorem earclip_total_correctness :
+  forall (orc : Oracle) (polys : list (list Z)),
+  (forall p, In p polys -> p <> []) ->
+  exists st, triangulate orc (2 * (numVert polys + 2 * length polys) + 4) polys = Some st /\
+    ceq (boundaries (tris st)) (contours polys) /\ TrisIn (concat polys) st /\
+    length (tris st) + nfilt st = nclip st /\ nclip st + nlive st = numVert polys + 2 * njoin st.
+Proof. exact triangulate_total_correct. Qed.
+Print Assumptions earclip_total_correctness.
+
+(* TriangulatePoly's counted loop performs exactly k ClipEar calls *)
+Theorem clip_loop_exact_count :
   forall (orc : Oracle) (k : nat) (st : St) (q : list nat) (v : nat) (st' : St),
   clip_loop orc k st q v = Some st' -> nclip st' = nclip st + k.
 Proof. exact clip_loop_count. Qed.
-Print Assumptions earclip_terminates_partial.
+Print Assumptions clip_loop_exact_count.
 
 (* TriangulateConvex: same chain identity and count n-2 per contour, so taking the fast path
-   changes the triangles, not the contract.  Bound in the statement: contours of 3..200 vertices
-   (positional sweep by vm_compute + naturality in the vertex names). *)
+   changes the triangles, not the contract.  FULL: every contour length >= 3, by induction on the
+   zig-zag strip (invariant: boundary(emitted) + path p_i..p_k + chord p_k->p_i = contour). *)
 Theorem convex_strip_chain :
   forall (polys : list (list Z)),
-  Forall (fun p => 3 <= length p <= 200) polys ->
+  Forall (fun p => 3 <= length p) polys ->
   exists ts, triangulateConvex polys = Some ts /\ ceq (boundaries ts) (contours polys) /\
              (Z.of_nat (length ts) = Z.of_nat (numVert polys) - 2 * Z.of_nat (length polys))%Z.
-Proof. exact convex_strip_contract. Qed.
+Proof. exact convex_strip_all. Qed.
 Print Assumptions convex_strip_chain.
+
+(* independent check of the same statement by computation on positions 0..n-1, n = 3..200 *)
+Example convex_strip_sweep : forallb convex_pos_ok (seq 3 198) = true.
+Proof. exact convex_sweep. Qed.
 
 (* HalfedgeTriangulation: Triangles() reads back what AddTriangle stored; with the chain
    identity every halfedge (reversed contour edges and triangle edges) is cancelled by a
@@ -115,6 +152,30 @@ Theorem halfedges_closed :
   (ceq (boundaries ts) (contours polys) -> ceq (het_halfedges polys ts) []).
 Proof. exact (fun polys ts => conj (het_roundtrip ts) (het_closed polys ts)). Qed.
 Print Assumptions halfedges_closed.
+
+(* pairing_reciprocal: the ported hash pairing of HalfedgeTriangulation::AddHalfedge (per-key
+   stacks, most recent first).  For every list of halfedges without loops (start <> end):
+   every recorded pairing is in range, reciprocal and has swapped endpoints; nothing stays in
+   edge2halfedge exactly when every directed edge is cancelled by a reverse one; hence, with the
+   chain identity of earclip_chain, all of Finalize()'s debug conditions hold.  No assumption
+   that directed edges are unique (duplicates pair like a stack, as in the code). *)
+Theorem pairing_reciprocal :
+  forall (es : chain),
+  NoLoop es ->
+  let ht := addHalfedges es in
+  hedges ht = es /\
+  (forall i, i < length es -> nth i (hpair ht) 0%Z <> (-1)%Z -> pair_ok ht i) /\
+  (hpend ht = [] <-> ceq es []) /\
+  (ceq es [] -> finalize_ok ht).
+Proof. exact pairing_reciprocal_thm. Qed.
+Print Assumptions pairing_reciprocal.
+
+Theorem pairing_of_triangulation_ok :
+  forall (polys : list (list Z)) (ts : list tri),
+  NoLoop (het_halfedges polys ts) -> ceq (boundaries ts) (contours polys) ->
+  finalize_ok (addHalfedges (het_halfedges polys ts)).
+Proof. exact pairing_of_triangulation. Qed.
+Print Assumptions pairing_of_triangulation_ok.
 
 Local Open Scope Z_scope.
 
